@@ -193,6 +193,837 @@ def _defn(name, params, ty, val, doc=None):
     return ("/-- %s -/\n" % doc if doc else "") + "def %s %s : %s := %s" % (name, ps, ty, val)
 
 
+# ---------------------------------------------------------------------------------------------------------------------
+# Round five: a small C++ front end (tokenizer, expression / statement parser) and a symbolic executor with eager
+# evaluation, opaque values and an effect trace.  Functions are read as *what they do* (final member values, ordered
+# effects on chunks_, returned value, per path), not as text shapes, so hoisted / renamed locals, split compound
+# statements, guard clauses, `?:` vs if/return, respelled counting loops, braces, `this->`, commuted comparisons are
+# all the same translation result (up to arithmetic the tie lemmas normalise).
+# ---------------------------------------------------------------------------------------------------------------------
+_TOKRE = re.compile(r"\s*(?:(\d+)[uUlL]*(?![\w.])|([A-Za-z_]\w*)|(\"(?:[^\"\\]|\\.)*\")|(->|\+\+|--|<=|>=|==|!=|&&|\|\||\+=|-=|\*=|/=|%=|::|[-+*/%<>=!&|^~?:;,.()\[\]{}]))")
+
+# names after which `<` opens a template argument list inside an expression
+_TEMPLATES = {"static_cast", "make_shared", "array", "is_convertible", "is_convertible_v", "ArrayListIterator",
+              "ConstArrayListIterator", "ArrayList", "shared_ptr", "is_same", "is_same_v"}
+_NOT_TYPES = {"delete", "new", "return", "throw", "goto", "case", "else", "do", "if", "for", "while", "this", "operator",
+              "static_cast", "const_cast", "reinterpret_cast", "dynamic_cast", "sizeof", "assert"}
+
+
+def _tokenize(text, what):
+    out, pos = [], 0
+    text = text.rstrip()
+    while pos < len(text):
+        m = _TOKRE.match(text, pos)
+        if not m or m.end() == pos:
+            raise TranslateError("%s: cannot tokenize %r" % (what, text[pos:pos + 40]))
+        if m.group(1) is not None:
+            out.append(("num", m.group(1)))
+        elif m.group(2) is not None:
+            out.append(("id", m.group(2)))
+        elif m.group(3) is not None:
+            out.append(("str", m.group(3)))
+        else:
+            out.append(("op", m.group(4)))
+        pos = m.end()
+    return out
+
+
+def _join(toks):
+    s = ""
+    for k, v in toks:
+        if s and (s[-1].isalnum() or s[-1] == "_") and (v[0].isalnum() or v[0] == "_"):
+            s += " "
+        s += v
+    return s
+
+
+class _Parser:
+    def __init__(self, toks, what):
+        self.t, self.i, self.what = toks, 0, what
+
+    def err(self, msg):
+        raise TranslateError("%s: %s near %r" % (self.what, msg, _join(self.t[max(0, self.i - 3):self.i + 6])))
+
+    def peek(self, k=0):
+        return self.t[self.i + k] if self.i + k < len(self.t) else ("eof", "")
+
+    def isop(self, v, k=0):
+        return self.peek(k) == ("op", v)
+
+    def isid(self, v, k=0):
+        return self.peek(k) == ("id", v)
+
+    def eat(self, v):
+        if not self.isop(v):
+            self.err("expected %r" % v)
+        self.i += 1
+
+    # ---- names ----
+    def targs(self, strict):
+        """at `<`: the balanced template argument list as normalised text, or None (position restored)"""
+        save, depth, j = self.i, 0, self.i
+        while j < len(self.t):
+            k, v = self.t[j]
+            if (k, v) == ("op", "<"):
+                depth += 1
+            elif (k, v) == ("op", ">"):
+                depth -= 1
+                if depth == 0:
+                    txt = _join(self.t[self.i:j + 1])
+                    self.i = j + 1
+                    return txt
+            elif k == "op" and v not in ("::", ",", "&", "*", "&&") and not (not strict and v in ("(", ")")):
+                break
+            elif k in ("str",):
+                break
+            j += 1
+        self.i = save
+        return None
+
+    def qname(self, in_type):
+        """qualified (template-)name as normalised text"""
+        parts = []
+        while True:
+            k, v = self.peek()
+            if k != "id":
+                self.err("identifier expected")
+            self.i += 1
+            if v == "operator":
+                k2, v2 = self.peek()
+                if k2 != "op":
+                    self.err("operator symbol expected")
+                self.i += 1
+                if v2 in ("[", "("):
+                    self.eat("]" if v2 == "[" else ")")
+                    v2 += "]" if v2 == "[" else ")"
+                parts.append("operator" + v2)
+                break
+            if self.isop("<") and (in_type or v in _TEMPLATES):
+                ta = self.targs(strict=in_type)
+                if ta is not None:
+                    v += ta
+                elif v in _TEMPLATES:
+                    self.err("template argument list expected")
+            parts.append(v)
+            if self.isop("::"):
+                self.i += 1
+                continue
+            break
+        return "::".join(parts)
+
+    # ---- expressions ----
+    def expr(self):
+        return self.assign()
+
+    def assign(self):
+        l = self.cond()
+        k, v = self.peek()
+        if k == "op" and v in ("=", "+=", "-=", "*=", "/=", "%="):
+            self.i += 1
+            return ("assign", v, l, self.assign())
+        return l
+
+    def cond(self):
+        c = self.binary(0)
+        if self.isop("?"):
+            self.i += 1
+            a = self.expr()
+            self.eat(":")
+            b = self.assign()
+            return ("cond", c, a, b)
+        return c
+
+    _LEVELS = [("||",), ("&&",), ("==", "!="), ("<", ">", "<=", ">="), ("+", "-"), ("*", "/", "%")]
+
+    def binary(self, lvl):
+        if lvl == len(self._LEVELS):
+            return self.unary()
+        l = self.binary(lvl + 1)
+        while self.peek()[0] == "op" and self.peek()[1] in self._LEVELS[lvl]:
+            op = self.peek()[1]
+            self.i += 1
+            l = ("bin", op, l, self.binary(lvl + 1))
+        return l
+
+    def unary(self):
+        k, v = self.peek()
+        if k == "op" and v in ("++", "--"):
+            self.i += 1
+            return ("pre", v, self.unary())
+        if k == "op" and v in ("!", "-", "+", "*", "&"):
+            self.i += 1
+            return ("un", v, self.unary())
+        return self.postfix()
+
+    def args(self, close):
+        a = []
+        if self.isop(close):
+            self.i += 1
+            return a
+        while True:
+            a.append(self.assign())
+            if self.isop(","):
+                self.i += 1
+                continue
+            self.eat(close)
+            return a
+
+    def postfix(self):
+        e = self.primary()
+        while True:
+            k, v = self.peek()
+            if k != "op":
+                return e
+            if v == "(":
+                self.i += 1
+                e = ("call", e, self.args(")"))
+            elif v == "{" and e[0] == "name" and "<" in e[1]:
+                self.i += 1
+                e = ("call", e, self.args("}"))
+            elif v == "[":
+                self.i += 1
+                ix = self.expr()
+                self.eat("]")
+                e = ("idx", e, ix)
+            elif v in (".", "->"):
+                self.i += 1
+                if self.isid("template"):
+                    self.i += 1
+                e = ("mem", e, v, self.qname(False))
+            elif v in ("++", "--"):
+                self.i += 1
+                e = ("post", v, e)
+            else:
+                return e
+
+    def primary(self):
+        k, v = self.peek()
+        if k == "num":
+            self.i += 1
+            return ("num", v)
+        if k == "str":
+            self.i += 1
+            return ("str", v)
+        if k == "op" and v == "(":
+            self.i += 1
+            e = self.expr()
+            self.eat(")")
+            return e
+        if k == "id":
+            if v == "typename":
+                self.i += 1
+            return ("name", self.qname(False))
+        self.err("unexpected token")
+
+    # ---- statements ----
+    def try_decl(self):
+        save = self.i
+        const = False
+        while self.peek()[0] == "id" and self.peek()[1] in ("const", "constexpr", "static", "typename", "volatile", "inline"):
+            const = const or self.peek()[1] in ("const", "constexpr")
+            self.i += 1
+        if self.peek()[0] != "id" or self.peek()[1] in _NOT_TYPES:
+            self.i = save
+            return None
+        try:
+            ty = self.qname(True)
+        except TranslateError:
+            self.i = save
+            return None
+        ref = ptr = False
+        while True:
+            if self.isid("const"):
+                const = True
+                self.i += 1
+            elif self.isop("&") or self.isop("&&"):
+                ref = True
+                self.i += 1
+            elif self.isop("*"):
+                ptr = True
+                const = False     # constness of the pointee says nothing about the variable
+                self.i += 1
+            else:
+                break
+        if self.peek()[0] != "id" or self.peek()[1] in _NOT_TYPES:
+            self.i = save
+            return None
+        name = self.peek()[1]
+        nk, nv = self.peek(1)
+        if nk != "op" or nv not in ("=", "(", "{", ";"):
+            self.i = save
+            return None
+        self.i += 2
+        if nv == ";":
+            self.i -= 1
+            init = None
+        elif nv == "=":
+            init = self.assign()
+        else:
+            a = self.args(")" if nv == "(" else "}")
+            if len(a) != 1:
+                self.err("declaration with %d constructor arguments" % len(a))
+            init = a[0]
+        if self.isop(","):
+            self.err("several declarators in one declaration")
+        return ("decl", ty, name, init, dict(const=const, ref=ref, ptr=ptr))
+
+    def simple(self):
+        """declaration or expression, without the terminating `;`"""
+        d = self.try_decl()
+        if d is not None:
+            return d
+        return ("expr", self.expr())
+
+    def stmt(self):
+        k, v = self.peek()
+        if k == "op" and v == "{":
+            self.i += 1
+            items = []
+            while not self.isop("}"):
+                if self.peek()[0] == "eof":
+                    self.err("unbalanced braces")
+                items.append(self.stmt())
+            self.i += 1
+            return ("block", items)
+        if k == "op" and v == ";":
+            self.i += 1
+            return ("block", [])
+        if k == "id" and v == "if":
+            self.i += 1
+            if self.isid("constexpr"):
+                self.i += 1
+            self.eat("(")
+            c = self.expr()
+            self.eat(")")
+            th = self.stmt()
+            el = ("block", [])
+            if self.isid("else"):
+                self.i += 1
+                el = self.stmt()
+            return ("if", c, th, el)
+        if k == "id" and v == "for":
+            self.i += 1
+            self.eat("(")
+            if self.isop(":", 0):
+                self.err("range-for")
+            init = ("block", []) if self.isop(";") else self.simple()
+            if self.isop(":"):
+                self.err("range-based for loop is outside the grammar")
+            self.eat(";")
+            c = None if self.isop(";") else self.expr()
+            self.eat(";")
+            step = None if self.isop(")") else self.expr()
+            self.eat(")")
+            return ("for", init, c, step, self.stmt())
+        if k == "id" and v == "while":
+            self.i += 1
+            self.eat("(")
+            c = self.expr()
+            self.eat(")")
+            return ("while", c, self.stmt())
+        if k == "id" and v == "return":
+            self.i += 1
+            e = None if self.isop(";") else self.expr()
+            self.eat(";")
+            return ("return", e)
+        if k == "id" and v == "throw":
+            self.i += 1
+            e = None if self.isop(";") else self.expr()
+            self.eat(";")
+            return ("throw", e)
+        if k == "id" and v in ("typedef", "using"):
+            while not self.isop(";"):
+                if self.peek()[0] == "eof":
+                    self.err("unterminated typedef")
+                self.i += 1
+            self.i += 1
+            return ("block", [])
+        if k == "id" and v in ("do", "switch", "goto", "try", "break", "continue", "case", "default"):
+            self.err("statement kind %r is outside the grammar" % v)
+        s = self.simple()
+        self.eat(";")
+        return s
+
+
+def _parse_body(body, what):
+    p = _Parser(_tokenize(body, what), what)
+    items = []
+    while p.peek()[0] != "eof":
+        items.append(p.stmt())
+    return items
+
+
+def _walk(n):
+    """all tuple nodes of an AST"""
+    if isinstance(n, tuple):
+        yield n
+        for c in n:
+            for x in _walk(c):
+                yield x
+    elif isinstance(n, list):
+        for c in n:
+            for x in _walk(c):
+                yield x
+
+
+_PURE_CALLS = {"begin", "cbegin", "end", "cend", "size", "empty", "get", "position"}
+
+
+def _impure(n):
+    """may evaluating the expression / executing the statement change anything?"""
+    for x in _walk(n):
+        if x and x[0] in ("assign", "pre", "post", "decl"):
+            return True
+        if x and x[0] == "call":
+            f = x[1]
+            nm = f[1] if f[0] == "name" else (f[3] if f[0] == "mem" else None)
+            if nm is None or not (nm.split("<")[0].split("::")[-1] in _PURE_CALLS or nm.startswith("static_cast<")
+                                  or nm.startswith("std::is_") or nm in ("elementAt", "operator[]", "at", "distanceTo", "equals")):
+                return True
+    return False
+
+
+def _names(n):
+    return set(x[1] for x in _walk(n) if x and x[0] == "name") | set(x[3] for x in _walk(n) if x and x[0] == "mem")
+
+
+class _State:
+    def __init__(self, env):
+        self.env, self.effects, self.conds, self.ret, self.done, self.threw = dict(env), [], [], None, False, False
+
+    def copy(self):
+        s = _State(self.env)
+        s.effects, s.conds, s.ret, s.done, s.threw = list(self.effects), list(self.conds), self.ret, self.done, self.threw
+        return s
+
+
+class Exec:
+    """symbolic executor: arithmetic values are Lean expression strings over the initial member values / parameters,
+    everything else is a tagged tuple; effects on opaque state are appended to the trace in program order"""
+
+    def __init__(self, what, env, ty="Nat", prefixes=("list_", "this")):
+        self.what, self.ty, self.env0 = what, ty, env
+        self.prefixes = prefixes
+
+    def err(self, msg):
+        raise TranslateError("%s: %s" % (self.what, msg))
+
+    # ---- l-values ----
+    def lname(self, n):
+        """the env key an l-value expression denotes"""
+        if n[0] == "name":
+            return n[1]
+        if n[0] == "mem" and n[1][0] == "name" and n[1][1] in self.prefixes and n[2] == "->":
+            return n[3]
+        if n[0] == "mem" and n[1] == ("un", "*", ("name", "this")) and n[2] == ".":
+            return n[3]
+        if n[0] == "mem" and n[1][0] == "name" and n[2] == ".":
+            return n[1][1] + "." + n[3]
+        return None
+
+    def get(self, key):
+        if key not in self.st.env:
+            self.err("unknown identifier %r" % key)
+        v = self.st.env[key]
+        if v is None:
+            self.err("%r is read before it has a value" % key)
+        return v
+
+    def put(self, key, v):
+        if key not in self.st.env:
+            self.err("assignment to unknown %r" % key)
+        if key in self.readonly:
+            self.err("assignment to %r, which is read-only here" % key)
+        if not isinstance(v, str):
+            self.err("non-arithmetic value assigned to %r" % key)
+        self.st.env[key] = v
+
+    def num(self, v, ctx):
+        if not isinstance(v, str):
+            self.err("arithmetic value expected in %s, got %r" % (ctx, v))
+        return v
+
+    # ---- expressions ----
+    def ev(self, n):
+        k = n[0]
+        if k == "num":
+            return n[1]
+        if k == "str":
+            self.err("string literal in an evaluated expression")
+        if k == "name":
+            if n[1] == "this":
+                return ("thisptr",)
+            return self.get(n[1])
+        if k == "mem":
+            key = self.lname(n)
+            if key is not None and key in self.st.env:
+                return self.get(key)
+            self.err("member access outside the grammar: %r" % (n,))
+        if k == "bin":
+            op = n[1]
+            if op in ("&&", "||"):
+                if _impure(n[3]):
+                    self.err("side effect on the right of %s" % op)
+                a, b = self.num(self.ev(n[2]), op), self.num(self.ev(n[3]), op)
+                return "(%s %s %s)" % (a, op, b)
+            a, b = self.ev(n[2]), self.ev(n[3])
+            if _impure(n[2]) and _impure(n[3]):
+                self.err("two operands with side effects (unsequenced)")
+            if op == "+" and isinstance(a, tuple) and a[0] == "chunkit" and isinstance(b, str):
+                return ("chunkit", b if a[1] == "0" else "(%s + %s)" % (a[1], b))
+            if op == "+" and isinstance(b, tuple) and b[0] == "chunkit" and isinstance(a, str):
+                return ("chunkit", a if b[1] == "0" else "(%s + %s)" % (a, b[1]))
+            a, b = self.num(a, op), self.num(b, op)
+            if op in ("+", "-", "*", "/", "%"):
+                return "(%s %s %s)" % (a, op, b)
+            if op in ("==", "!="):
+                return "(%s %s %s)" % (a, op, b)
+            return "(decide (%s %s %s))" % (a, {"<": "<", "<=": "≤", ">": ">", ">=": "≥"}[op], b)
+        if k == "un":
+            if n[1] == "*":
+                v = self.ev(n[2])
+                if v == ("thisptr",):
+                    return ("self",)
+                if isinstance(v, tuple) and v[0] == "chunkptr":
+                    return ("chunkobj", v[1])
+                self.err("dereference outside the grammar")
+            v = self.num(self.ev(n[2]), n[1])
+            if n[1] == "!":
+                return "(!%s)" % v
+            if n[1] == "+":
+                return v
+            if n[1] == "-" and self.ty == "Int":
+                return "(-%s)" % v
+            self.err("unary %s outside the grammar" % n[1])
+        if k in ("pre", "post"):
+            key = self.lname(n[2])
+            if key is None:
+                self.err("%s on something that is not a variable" % n[1])
+            old = self.num(self.get(key), n[1])
+            new = "(%s %s 1)" % (old, "+" if n[1] == "++" else "-")
+            self.put(key, new)
+            return new if k == "pre" else old
+        if k == "assign":
+            key = self.lname(n[2])
+            if key is not None and key in self.st.env:
+                rhs = self.num(self.ev(n[3]), "assignment")
+                if n[1] != "=":
+                    rhs = "(%s %s %s)" % (self.num(self.get(key), n[1]), n[1][0], rhs)
+                self.put(key, rhs)
+                return rhs
+            tgt = self.ev(n[2])
+            if isinstance(tgt, tuple) and tgt[0] == "elemref" and n[1] == "=":
+                rhs = self.ev(n[3])
+                if rhs != ("entry",):
+                    self.err("element written with something other than the argument")
+                self.st.effects.append(("write", tgt[1]))
+                return tgt
+            self.err("assignment target outside the grammar: %r" % (n[2],))
+        if k == "cond":
+            if _impure(n[2]) or _impure(n[3]):
+                self.err("side effect inside ?:")
+            c = self.num(self.ev(n[1]), "?:")
+            a, b = self.ev(n[2]), self.ev(n[3])
+            if a == b:
+                return a
+            return "(if %s then %s else %s)" % (c, self.num(a, "?:"), self.num(b, "?:"))
+        if k == "idx":
+            base = self.ev(n[1])
+            ix = self.num(self.ev(n[2]), "subscript")
+            if base == ("chunks",):
+                return ("chunkptr", ix)
+            if isinstance(base, tuple) and base[0] == "chunkobj":
+                return ("chunkelem", base[1], ix)
+            if isinstance(base, tuple) and base[0] == "chunkit":
+                return ("chunkptr", "(%s + %s)" % (base[1], ix))
+            self.err("subscript outside the grammar")
+        if k == "call":
+            return self.call(n)
+        self.err("expression outside the grammar: %r" % (n,))
+
+    def call(self, n):
+        f, args = n[1], n[2]
+        if f[0] == "name":
+            nm = f[1]
+            if nm in ("assert", "DUNE_ASSERT_BOUNDS"):
+                if len(args) != 1 or _impure(args[0]):
+                    self.err("assert with a side effect")
+                return ("void",)
+            if nm == "elementAt" and len(args) == 1 and self.own_element_at:
+                return ("elemref", self.num(self.ev(args[0]), "elementAt"))
+            if re.fullmatch(r"(?:std::)?make_shared<(?:std::)?array<MemberType,chunkSize_>>", nm) and not args:
+                return ("newchunk",)
+            if re.fullmatch(r"(?:Const)?ArrayListIterator<T,N,A>|(?:const_)?iterator", nm) and len(args) == 2:
+                if self.ev(args[0]) != ("self",):
+                    self.err("iterator constructed over another list")
+                return ("iter", self.num(self.ev(args[1]), "iterator position"))
+            if nm in ("std::copy", "std::move") and len(args) == 3:
+                a = [self.ev(x) for x in args]
+                if not all(isinstance(x, tuple) and x[0] == "chunkit" for x in a):
+                    self.err("std::copy over something other than chunks_ iterators")
+                self.st.effects.append(("copy", a[0][1], a[1][1], a[2][1]))
+                return ("void",)
+            if nm == "std::copy_n" and len(args) == 3:
+                a, cnt, c = self.ev(args[0]), self.num(self.ev(args[1]), "copy_n"), self.ev(args[2])
+                if not all(isinstance(x, tuple) and x[0] == "chunkit" for x in (a, c)):
+                    self.err("std::copy_n over something other than chunks_ iterators")
+                self.st.effects.append(("copy", a[1], "(%s + %s)" % (a[1], cnt), c[1]))
+                return ("void",)
+            if nm in ("std::next", "std::begin", "std::cbegin") and args:
+                a = self.ev(args[0])
+                if nm == "std::next" and isinstance(a, tuple) and a[0] == "chunkit" and len(args) == 2:
+                    return ("chunkit", "(%s + %s)" % (a[1], self.num(self.ev(args[1]), "std::next")))
+                if nm != "std::next" and a == ("chunks",) and len(args) == 1:
+                    return ("chunkit", "0")
+            m = re.fullmatch(r"static_cast<(.*)>", nm)
+            if m and len(args) == 1:
+                v = self.ev(args[0])
+                if isinstance(v, tuple) and v[0] == "obj" and re.fullmatch(r"const T[12]&|T[12] const&", m.group(1)):
+                    return v
+                self.err("cast outside the grammar: %s" % nm)
+            self.err("call of %r is outside the grammar" % nm)
+        if f[0] == "mem":
+            meth = f[3]
+            key = self.lname(f)
+            # a method of the list itself, called through list_-> / this-> / (*this).
+            if key == "elementAt" and len(args) == 1 and (self.own_element_at or f[1] == ("name", "list_")):
+                return ("elemref", self.num(self.ev(args[0]), "elementAt"))
+            base = self.ev(f[1])
+            if base == ("chunks",):
+                if meth in ("begin", "cbegin") and not args:
+                    return ("chunkit", "0")
+                if meth == "clear" and not args:
+                    self.st.effects.append(("clear",))
+                    return ("void",)
+                if meth == "resize" and len(args) == 1:
+                    self.st.effects.append(("resize", self.num(self.ev(args[0]), "resize")))
+                    return ("void",)
+                if meth in ("push_back", "emplace_back") and len(args) == 1 and self.ev(args[0]) == ("newchunk",):
+                    self.st.effects.append(("grow",))
+                    return ("void",)
+            if isinstance(base, tuple) and base[0] == "chunkptr":
+                if meth == "reset" and f[2] == "." and not args:
+                    self.st.effects.append(("reset", base[1]))
+                    return ("void",)
+                if meth == "get" and f[2] == "." and not args:
+                    return base
+                if meth in ("operator[]", "at") and f[2] == "->" and len(args) == 1:
+                    return ("chunkelem", base[1], self.num(self.ev(args[0]), "chunk subscript"))
+            if isinstance(base, tuple) and base[0] == "chunkobj" and meth in ("operator[]", "at") and f[2] == "." and len(args) == 1:
+                return ("chunkelem", base[1], self.num(self.ev(args[0]), "chunk subscript"))
+            if isinstance(base, tuple) and base[0] == "obj" and meth in self.prims and f[2] == "." and len(args) == 1:
+                a = self.ev(args[0])
+                if isinstance(a, tuple) and a[0] == "obj":
+                    return "(%s %s %s)" % (self.prims[meth], base[1], a[1])
+            self.err("call of method %r is outside the grammar" % meth)
+        self.err("call outside the grammar")
+
+    own_element_at = False
+    prims = {}
+    readonly = ()
+
+    # ---- statements ----
+    def run(self, items):
+        """-> the list of paths (final states)"""
+        live = [_State(self.env0)]
+        return self.block(items, live)
+
+    def block(self, items, states):
+        for s in items:
+            nxt = []
+            for st in states:
+                if st.done:
+                    nxt.append(st)
+                else:
+                    nxt.extend(self.stmt(s, st))
+            states = nxt
+        return states
+
+    def stmt(self, s, st):
+        self.st = st
+        k = s[0]
+        if k == "block":
+            locals_before = set(st.env)
+            out = self.block(s[1], [st])
+            for o in out:       # block scope ends
+                for nm in set(o.env) - locals_before:
+                    del o.env[nm]
+            return out
+        if k == "expr":
+            self.ev(s[1])
+            return [st]
+        if k == "decl":
+            _, ty, name, init, q = s
+            if name in st.env:
+                self.err("local %r shadows a known name" % name)
+            v = None if init is None else self.ev(init)
+            if q["ref"] and isinstance(v, str):
+                self.err("reference local %r to an arithmetic object (aliasing is outside the grammar)" % name)
+            if q["ptr"]:
+                self.err("pointer local %r" % name)
+            if isinstance(v, str) and not re.fullmatch(r"(?:std::)?(?:size_t|size_type|difference_type|ptrdiff_t|auto|bool|DifferenceType|D)", ty):
+                self.err("local %r of type %r (conversions are outside the grammar)" % (name, ty))
+            st.env[name] = v
+            return [st]
+        if k == "return":
+            if s[1] is not None and s[1][0] == "cond" and not _impure(s[1]):
+                return self.stmt(("if", s[1][1], ("return", s[1][2]), ("return", s[1][3])), st)
+            st.ret = ("void",) if s[1] is None else self.ev(s[1])
+            st.done = True
+            return [st]
+        if k == "throw":
+            st.done = st.threw = True
+            return [st]
+        if k == "if":
+            c = self.num(self.ev(s[1]), "if")
+            a, b = st, st.copy()
+            a.conds.append((c, True))
+            b.conds.append((c, False))
+            return self.stmt(s[2], a) + self.stmt(s[3], b)
+        if k == "for":
+            return self.loop(s, st)
+        self.err("statement outside the grammar: %s" % k)
+
+    def loop(self, s, st):
+        """`for` loops that repeat their body a number of times known on entry, with a counter the body does not touch"""
+        _, init, c, step, body = s
+        if init[0] != "decl" or init[3] is None or c is None or step is None:
+            self.err("loop header outside the grammar")
+        v = init[2]
+        if v in st.env:
+            self.err("loop counter %r shadows a known name" % v)
+        if not re.fullmatch(r"(?:std::)?(?:size_t|size_type)", init[1]):
+            self.err("loop counter of type %r" % init[1])
+        if v in _names(body):
+            self.err("the loop body uses the counter %r" % v)
+        if c[0] != "bin" or c[1] not in ("<", ">", "!="):
+            self.err("loop condition outside the grammar")
+        if c[2] == ("name", v):
+            op, other = c[1], c[3]
+        elif c[3] == ("name", v):
+            op, other = {"<": ">", ">": "<", "!=": "!="}[c[1]], c[2]
+        else:
+            self.err("loop condition does not test the counter")
+        if _impure(other) or _impure(init[3]) or v in _names(other):
+            self.err("loop bound with a side effect")
+        up = step in (("pre", "++", ("name", v)), ("post", "++", ("name", v)), ("assign", "+=", ("name", v), ("num", "1")))
+        down = step in (("pre", "--", ("name", v)), ("post", "--", ("name", v)), ("assign", "-=", ("name", v), ("num", "1")))
+        assigned = set(self.lname(x[2]) for x in _walk(body) if x and x[0] in ("assign", "pre", "post"))
+        if (_names(other) | _names(init[3])) & assigned:
+            self.err("the loop body changes its own bound")
+        a, b = self.num(self.ev(init[3]), "loop start"), self.num(self.ev(other), "loop bound")
+        if up and op in ("<", "!="):
+            lo, hi = a, b
+        elif down and op in (">", "!="):
+            lo, hi = b, a
+        else:
+            self.err("loop direction outside the grammar")
+        if op == "!=" and lo != "0":
+            self.err("`!=` loop whose lower end is not the literal 0 (may not terminate)")
+        count = hi if lo == "0" else "(%s - %s)" % (hi, lo)
+        # one symbolic round of the body: which locals change how, and which effects happen
+        changed = sorted(x for x in assigned if x is not None)
+        for x in changed:
+            if x not in st.env or x in self.env0:
+                self.err("the loop body changes %r" % x)
+        probe = st.copy()
+        probe.effects = []
+        for x in changed:
+            probe.env[x] = "§" + x
+        outs = self.stmt(body, probe)
+        self.st = st
+        if len(outs) != 1 or outs[0].done:
+            self.err("branching / return inside the loop body")
+        o = outs[0]
+        if len(changed) == 1 and o.env[changed[0]] == "(§%s - 1)" % changed[0] and o.effects == [("reset", "(§%s - 1)" % changed[0])]:
+            first = self.num(st.env[changed[0]], "loop")
+            st.effects.append(("resetdown", first, count))
+            st.env[changed[0]] = "(%s - %s)" % (first, count)
+            return [st]
+        self.err("loop body outside the grammar (one round: %r, %r)" % (dict((x, o.env[x]) for x in changed), o.effects))
+
+
+def _tree(paths, get, depth=0):
+    """the value `get(path)` as one Lean expression: nested `if` over the path conditions"""
+    vals = [get(p) for p in paths]
+    if all(v == vals[0] for v in vals):
+        return vals[0]
+    if any(len(p.conds) <= depth for p in paths):
+        raise TranslateError("paths cannot be merged")
+    c = paths[0].conds[depth][0]
+    if any(p.conds[depth][0] != c for p in paths):
+        raise TranslateError("paths cannot be merged")
+    t = [p for p in paths if p.conds[depth][1]]
+    f = [p for p in paths if not p.conds[depth][1]]
+    if not t or not f:
+        return _tree(paths, get, depth + 1)
+    for v in vals:
+        if not isinstance(v, str):
+            raise TranslateError("non-arithmetic values differ between paths")
+    return "(if %s then %s else %s)" % (c, _tree(t, get, depth + 1), _tree(f, get, depth + 1))
+
+
+def _path_cond(p):
+    """conjunction of a path's conditions as a Lean Bool"""
+    cs = [c if pol else "(!%s)" % c for c, pol in p.conds]
+    if not cs:
+        return "true"
+    out = cs[0]
+    for c in cs[1:]:
+        out = "(%s && %s)" % (out, c)
+    return out
+
+
+def _run(what, body, env, ty="Nat", **kw):
+    ex = Exec(what, env, ty)
+    for k, v in kw.items():
+        setattr(ex, k, v)
+    paths = ex.run(_parse_body(body, what))
+    if not paths:
+        raise TranslateError("%s: no path" % what)
+    return paths
+
+
+def _unchanged(paths, env, what, keys=None):
+    for p in paths:
+        for k in (keys if keys is not None else env):
+            if p.env.get(k) != env[k]:
+                raise TranslateError("%s: %s changes where it must not" % (what, k))
+
+
+def _ret(paths, what, tag=None, arity=0):
+    """the returned value of a function all of whose paths return: a Lean expression (tag None) or the `arity` Lean
+    components of a tagged value"""
+    for p in paths:
+        if not p.done or p.ret is None or p.threw:
+            raise TranslateError("%s: a path ends without returning a value" % what)
+        if tag is None and not isinstance(p.ret, str):
+            raise TranslateError("%s: returned value outside the grammar: %r" % (what, p.ret))
+        if tag is not None and not (isinstance(p.ret, tuple) and p.ret[0] == tag and len(p.ret) == arity + 1):
+            raise TranslateError("%s: returned value outside the grammar: %r" % (what, p.ret))
+    if tag is None:
+        return _tree(paths, lambda p: p.ret)
+    return [_tree(paths, lambda p, j=j: p.ret[j + 1]) for j in range(arity)]
+
+
+def _same(paths, get, what, thing):
+    vals = [get(p) for p in paths]
+    if any(v != vals[0] for v in vals):
+        raise TranslateError("%s: %s differs between the paths: %r" % (what, thing, vals))
+    return vals[0]
+
+
+def _which(paths, sel, what):
+    """Lean Bool: the execution takes one of the paths in `sel`"""
+    rest = [p for p in paths if p not in sel]
+    if not sel or not rest:
+        raise TranslateError("%s: expected both kinds of paths" % what)
+    if len(paths) == 2 and len(sel[0].conds) == 1 and len(rest[0].conds) == 1:
+        c, pol = sel[0].conds[0]
+        return c if pol else "(!%s)" % c
+    return _tree(paths, lambda p: "true" if p in sel else "false")
+
+
 def _arraylist(repo, out):
     src = _strip_comments(open(os.path.join(repo, "dune/common/arraylist.hh")).read())
 
@@ -208,76 +1039,65 @@ def _arraylist(repo, out):
                      "`chunkSize_` of ArrayList and of both iterator classes"))
 
     nat = "Nat"
+    mem = {"start_": "start", "size_": "size", "capacity_": "capacity", "chunkSize_": "cs", "chunks_": ("chunks",)}
+    memkeys = ("start_", "size_", "capacity_", "chunkSize_")
+    P4 = [("cs", nat), ("start", nat), ("size", nat), ("capacity", nat)]
+    ro = ("chunkSize_",)
 
-    # ---- ArrayList::elementAt (mutable and const): chunks_[E1]->operator[](E2) ----
+    def accessor(what, body, env, **kw):
+        """a function that only computes: no effect, no member changes"""
+        paths = _run(what, body, env, readonly=tuple(k for k in env if isinstance(env[k], str)), **kw)
+        for p in paths:
+            if p.effects:
+                raise TranslateError("%s: an accessor with an effect on chunks_" % what)
+        return paths
+
+    # ---- ArrayList::elementAt (mutable and const): the element (chunk index, offset) ----
     bodies = _find_bodies(src, _T + r"typename\s+ArrayList<T,N,A>::(?:const_)?reference\s+" + _AL + r"elementAt\s*\(\s*size_type\s+(\w+)\s*\)\s*(?:const)?", "ArrayList::elementAt", 2)
     for (m, body), suf in zip(bodies, ("", "C")):
-        r = _single_return(body, "ArrayList::elementAt")
-        mm = re.fullmatch(r"(?:\(\s*\*\s*chunks_\s*\[(.+)\]\s*\)\s*\[(.+)\]|chunks_\s*\[(.+)\]\s*->\s*operator\[\]\s*\((.+)\)|chunks_\s*\[(.+)\]\s*->\s*at\s*\((.+)\))", r, flags=re.S)
-        if not mm:
-            raise TranslateError("ArrayList::elementAt: return expression outside the grammar: %r" % r)
-        g = [x for x in mm.groups() if x is not None]
-        sy = Sym("ArrayList::elementAt", {m.group(1): "i", "chunkSize_": "cs"})
-        out.append(_defn("alElemChunk" + suf, [("cs", nat), ("i", nat)], nat, sy.expr(g[0]),
+        env = {m.group(1): "i", "chunkSize_": "cs", "chunks_": ("chunks",)}
+        a, b = _ret(accessor("ArrayList::elementAt", body, env), "ArrayList::elementAt", "chunkelem", 2)
+        out.append(_defn("alElemChunk" + suf, [("cs", nat), ("i", nat)], nat, a,
                          "ArrayList::elementAt(i)%s: index into chunks_" % (" const" if suf else "")))
-        out.append(_defn("alElemOffset" + suf, [("cs", nat), ("i", nat)], nat, sy.expr(g[1]),
+        out.append(_defn("alElemOffset" + suf, [("cs", nat), ("i", nat)], nat, b,
                          "ArrayList::elementAt(i)%s: index inside the chunk" % (" const" if suf else "")))
 
-    # ---- operator[] (2): return elementAt(E) ----
+    # ---- operator[] (2): the absolute index handed to elementAt ----
     bodies = _find_bodies(src, _T + r"typename\s+ArrayList<T,N,A>::(?:const_)?reference\s+" + _AL + r"operator\[\]\s*\(\s*size_type\s+(\w+)\s*\)\s*(?:const)?", "ArrayList::operator[]", 2)
     for (m, body), suf in zip(bodies, ("", "C")):
-        r = _single_return(body, "ArrayList::operator[]")
-        mm = re.fullmatch(r"elementAt\s*\((.+)\)", r, flags=re.S)
-        if not mm:
-            raise TranslateError("ArrayList::operator[]: expected `return elementAt(...)`, got %r" % r)
-        sy = Sym("ArrayList::operator[]", {m.group(1): "i", "start_": "start", "size_": "size", "capacity_": "capacity", "chunkSize_": "cs"})
-        out.append(_defn("alIndexArg" + suf, [("cs", nat), ("start", nat), ("size", nat), ("capacity", nat), ("i", nat)], nat, sy.expr(mm.group(1)),
+        env = dict(mem)
+        env[m.group(1)] = "i"
+        a, = _ret(accessor("ArrayList::operator[]", body, env, own_element_at=True), "ArrayList::operator[]", "elemref", 1)
+        out.append(_defn("alIndexArg" + suf, P4 + [("i", nat)], nat, a,
                          "ArrayList::operator[](i)%s: the absolute index handed to elementAt" % (" const" if suf else "")))
 
-    # ---- begin / end (4): XIterator<T,N,A>(*this, E) ----
+    # ---- begin / end (4): the position_ of the iterator over *this that is returned ----
     for fn, lean in (("begin", "alBegin"), ("end", "alEnd")):
         bodies = _find_bodies(src, _T + r"(?:Const)?ArrayListIterator<T,N,A>\s+" + _AL + fn + r"\s*\(\s*\)\s*(?:const)?", "ArrayList::" + fn, 2)
         for (m, body), suf in zip(bodies, ("", "C")):
-            r = _single_return(body, "ArrayList::" + fn)
-            mm = re.fullmatch(r"(?:Const)?ArrayListIterator\s*<\s*T\s*,\s*N\s*,\s*A\s*>\s*\(\s*\*this\s*,(.+)\)", r, flags=re.S)
-            if not mm:
-                raise TranslateError("ArrayList::%s: return expression outside the grammar: %r" % (fn, r))
-            sy = Sym("ArrayList::" + fn, {"start_": "start", "size_": "size", "capacity_": "capacity", "chunkSize_": "cs"})
-            out.append(_defn(lean + suf, [("cs", nat), ("start", nat), ("size", nat), ("capacity", nat)], nat, sy.expr(mm.group(1)),
-                             "position_ of ArrayList::%s()%s" % (fn, " const" if suf else "")))
+            a, = _ret(accessor("ArrayList::" + fn, body, dict(mem)), "ArrayList::" + fn, "iter", 1)
+            out.append(_defn(lean + suf, P4, nat, a, "position_ of ArrayList::%s()%s" % (fn, " const" if suf else "")))
 
     # ---- size() ----
     bodies = _find_bodies(src, _T + r"size_t\s+" + _AL + r"size\s*\(\s*\)\s*const", "ArrayList::size", 1)
-    sy = Sym("ArrayList::size", {"start_": "start", "size_": "size", "capacity_": "capacity", "chunkSize_": "cs"})
-    out.append(_defn("alSize", [("cs", nat), ("start", nat), ("size", nat), ("capacity", nat)], nat,
-                     sy.expr(_single_return(bodies[0][1], "ArrayList::size")), "ArrayList::size()"))
+    out.append(_defn("alSize", P4, nat, _ret(accessor("ArrayList::size", bodies[0][1], dict(mem)), "ArrayList::size"), "ArrayList::size()"))
 
-    # ---- iterator elementAt / dereference (2 + 2): list_->elementAt(E) ----
+    # ---- iterator elementAt / dereference (2 + 2): the absolute index handed to list_->elementAt ----
     for cls, sig, suf in (("ArrayListIterator", _IT, ""), ("ConstArrayListIterator", _CIT, "C")):
         bodies = _find_bodies(src, _T + r"typename\s+" + cls + r"<T,N,A>::reference\s+" + sig + r"elementAt\s*\(\s*size_type\s+(\w+)\s*\)\s*const", cls + "::elementAt", 1)
         m, body = bodies[0]
-        r = _single_return(body, cls + "::elementAt")
-        mm = re.fullmatch(r"list_\s*->\s*elementAt\s*\((.+)\)", r, flags=re.S)
-        if not mm:
-            raise TranslateError("%s::elementAt: expected `return list_->elementAt(...)`, got %r" % (cls, r))
-        sy = Sym(cls + "::elementAt", {m.group(1): "i", "position_": "pos", "chunkSize_": "cs"})
-        out.append(_defn("itElemArg" + suf, [("cs", nat), ("pos", nat), ("i", nat)], nat, sy.expr(mm.group(1)),
+        a, = _ret(accessor(cls + "::elementAt", body, {m.group(1): "i", "position_": "pos", "chunkSize_": "cs"}), cls + "::elementAt", "elemref", 1)
+        out.append(_defn("itElemArg" + suf, [("cs", nat), ("pos", nat), ("i", nat)], nat, a,
                          "%s::elementAt(i) = operator[] of an iterator: the absolute index handed to the list" % cls))
         bodies = _find_bodies(src, _T + r"typename\s+" + cls + r"<T,N,A>::reference\s+" + sig + r"dereference\s*\(\s*\)\s*const", cls + "::dereference", 1)
-        r = _single_return(bodies[0][1], cls + "::dereference")
-        mm = re.fullmatch(r"list_\s*->\s*elementAt\s*\((.+)\)", r, flags=re.S)
-        if not mm:
-            raise TranslateError("%s::dereference: expected `return list_->elementAt(...)`, got %r" % (cls, r))
-        sy = Sym(cls + "::dereference", {"position_": "pos", "chunkSize_": "cs"})
-        out.append(_defn("itDerefArg" + suf, [("cs", nat), ("pos", nat)], nat, sy.expr(mm.group(1)), "%s::dereference()" % cls))
+        a, = _ret(accessor(cls + "::dereference", bodies[0][1], {"position_": "pos", "chunkSize_": "cs"}), cls + "::dereference", "elemref", 1)
+        out.append(_defn("itDerefArg" + suf, [("cs", nat), ("pos", nat)], nat, a, "%s::dereference()" % cls))
 
     # ---- iterator distanceTo (2), equals (3), advance / increment / decrement (2 each): Int / Bool ----
-    intp = {"position_": "pos", "other__position_": "other"}
     for cls, sig, suf in (("ArrayListIterator", _IT, ""), ("ConstArrayListIterator", _CIT, "C")):
         bodies = _find_bodies(src, _T + r"typename\s+" + cls + r"<T,N,A>::difference_type\s+" + sig + r"distanceTo\s*\(\s*const\s+" + cls + r"<T,N,A>&\s*other\s*\)\s*const", cls + "::distanceTo", 1)
-        sy = Sym(cls + "::distanceTo", intp)
-        out.append(_defn("itDistanceTo" + suf, [("pos", "Int"), ("other", "Int")], "Int", sy.expr(_single_return(bodies[0][1], cls + "::distanceTo")),
-                         "%s::distanceTo(other)" % cls))
+        v = _ret(accessor(cls + "::distanceTo", bodies[0][1], {"position_": "pos", "other.position_": "other"}, ty="Int"), cls + "::distanceTo")
+        out.append(_defn("itDistanceTo" + suf, [("pos", "Int"), ("other", "Int")], "Int", v, "%s::distanceTo(other)" % cls))
         for fn, lean, params, sigargs in (("advance", "itAdvance", [("pos", "Int"), ("n", "Int")], r"difference_type\s+(\w+)"),
                                           ("increment", "itIncrement", [("pos", "Int")], ""),
                                           ("decrement", "itDecrement", [("pos", "Int")], "")):
@@ -286,154 +1106,92 @@ def _arraylist(repo, out):
             env = {"position_": "pos"}
             if sigargs:
                 env[m.group(1)] = "n"
-            sy = Sym(cls + "::" + fn, env)
-            for s in _stmts(body):
-                if not sy.stmt(s):
-                    raise TranslateError("%s::%s: statement outside the grammar: %r" % (cls, fn, s))
-            out.append(_defn(lean + suf, params, "Int", sy.env["position_"], "%s::%s: the new position_" % (cls, fn)))
+            paths = _run(cls + "::" + fn, body, env, ty="Int", readonly=tuple(k for k in env if k != "position_"))
+            if any(p.effects or p.threw for p in paths):
+                raise TranslateError("%s::%s: effect outside the grammar" % (cls, fn))
+            out.append(_defn(lean + suf, params, "Int", _tree(paths, lambda p: p.env["position_"]), "%s::%s: the new position_" % (cls, fn)))
     eqs = _find_bodies(src, _T + r"bool\s+(?:Const)?ArrayListIterator<T,N,A>::equals\s*\(\s*const\s+(?:Const)?ArrayListIterator<MemberType,N,A>&\s*other\s*\)\s*const", "equals", 3)
     for (m, body), suf in zip(eqs, ("", "M", "C")):
-        sy = Sym("equals", {"position_": "pos", "other__position_": "other"})
-        out.append(_defn("itEquals" + suf, [("pos", nat), ("other", nat)], "Bool", sy.expr(_single_return(body, "equals")),
+        v = _ret(accessor("equals", body, {"position_": "pos", "other.position_": "other"}), "equals")
+        out.append(_defn("itEquals" + suf, [("pos", nat), ("other", nat)], "Bool", v,
                          "equals: iterator/iterator, iterator/const_iterator, const_iterator/const_iterator (in source order)"))
-
-    mem = {"start_": "start", "size_": "size", "capacity_": "capacity", "chunkSize_": "cs"}
-    P4 = [("cs", nat), ("start", nat), ("size", nat), ("capacity", nat)]
 
     # ---- clear ----
     bodies = _find_bodies(src, _T + r"void\s+" + _AL + r"clear\s*\(\s*\)", "ArrayList::clear", 1)
-    sy = Sym("ArrayList::clear", mem)
-    cleared = 0
-    for s in _stmts(bodies[0][1]):
-        if re.fullmatch(r"chunks_\s*\.\s*clear\s*\(\s*\)", s):
-            cleared += 1
-        elif not sy.stmt(s):
-            raise TranslateError("ArrayList::clear: statement outside the grammar: %r" % s)
-    if cleared != 1:
+    paths = _run("ArrayList::clear", bodies[0][1], dict(mem), readonly=ro)
+    if any(p.effects != [("clear",)] or p.threw for p in paths):
         raise TranslateError("ArrayList::clear: chunks_.clear() expected exactly once")
     for mname, lean in (("capacity_", "clearCapacity"), ("size_", "clearSize"), ("start_", "clearStart")):
-        out.append(_defn(lean, P4, nat, sy.env[mname], "ArrayList::clear(): %s afterwards (chunks_ is cleared)" % mname))
+        out.append(_defn(lean, P4, nat, _tree(paths, lambda p: p.env[mname]), "ArrayList::clear(): %s afterwards (chunks_ is cleared)" % mname))
 
     # ---- push_back ----
     bodies = _find_bodies(src, _T + r"void\s+" + _AL + r"push_back\s*\(\s*const_reference\s+(\w+)\s*\)", "ArrayList::push_back", 1)
     m, body = bodies[0]
-    entry = m.group(1)
-    mm = re.fullmatch(r"(.*?)\bif\s*\((.*?)\)\s*\{(.*?)\}(.*)", body, flags=re.S)
-    if not mm:
-        raise TranslateError("ArrayList::push_back: expected `...; if(cond) { ... } ...`")
-    sy = Sym("ArrayList::push_back", mem)
-    for s in _stmts(mm.group(1)):
-        if not sy.stmt(s):
-            raise TranslateError("ArrayList::push_back: statement outside the grammar: %r" % s)
-    cond = sy.expr(mm.group(2))
-    before = dict(sy.env)
-    grown = 0
-    for s in _stmts(mm.group(3)):
-        if re.fullmatch(r"chunks_\s*\.\s*(?:push_back|emplace_back)\s*\(\s*std::make_shared\s*<\s*std::array\s*<\s*MemberType\s*,\s*chunkSize_\s*>\s*>\s*\(\s*\)\s*\)", s):
-            grown += 1
-        elif not sy.stmt(s):
-            raise TranslateError("ArrayList::push_back: statement outside the grammar: %r" % s)
-    if grown != 1:
-        raise TranslateError("ArrayList::push_back: exactly one chunk must be appended when the list grows")
-    if set(k for k in sy.env if sy.env[k] != before.get(k)) - {"capacity_"}:
-        raise TranslateError("ArrayList::push_back: the growing branch may change capacity_ only")
-    capgrown = sy.env["capacity_"]
-    sy.env = before
-    sy.env["capacity_"] = "capacity"      # the tail is translated for a given capacity (either branch)
-    wrote = None
-    for s in _stmts(mm.group(4)):
-        w = re.fullmatch(r"elementAt\s*\((.+)\)\s*=\s*%s" % re.escape(entry), s, flags=re.S)
-        if w:
-            if wrote is not None:
-                raise TranslateError("ArrayList::push_back: two writes")
-            if "size_" in sy.assigned:
-                raise TranslateError("ArrayList::push_back: size_ changed before the element is written")
-            wrote = sy.expr(w.group(1))
-        elif not sy.stmt(s):
-            raise TranslateError("ArrayList::push_back: statement outside the grammar: %r" % s)
-    if wrote is None:
-        raise TranslateError("ArrayList::push_back: no `elementAt(index)=entry`")
-    out.append(_defn("pushGrow", P4, "Bool", cond, "push_back: a new chunk is appended iff"))
-    out.append(_defn("pushGrownCapacity", P4, nat, capgrown, "push_back: capacity_ after appending a chunk"))
-    out.append(_defn("pushWriteIndex", P4, nat, wrote, "push_back: absolute index the entry is written to"))
-    out.append(_defn("pushSize", P4, nat, sy.env["size_"], "push_back: size_ afterwards"))
-    out.append(_defn("pushStart", P4, nat, sy.env["start_"], "push_back: start_ afterwards"))
+    env = dict(mem)
+    env[m.group(1)] = ("entry",)
+    what = "ArrayList::push_back"
+    paths = _run(what, body, env, readonly=ro, own_element_at=True)
+    grown, plain = [], []
+    for p in paths:
+        if len(p.effects) == 2 and p.effects[0] == ("grow",) and p.effects[1][0] == "write":
+            grown.append(p)
+        elif len(p.effects) == 1 and p.effects[0][0] == "write":
+            plain.append(p)
+        else:
+            raise TranslateError("%s: expected [append one chunk,] write one element; got %r" % (what, p.effects))
+        if p.threw:
+            raise TranslateError("%s: throws" % what)
+    _unchanged(plain, env, what + " (without growth)", ("capacity_",))
+    widx = _same(paths, lambda p: p.effects[-1][1], what, "the index written")
+    wsize = _same(paths, lambda p: p.env["size_"], what, "size_ afterwards")
+    wstart = _same(paths, lambda p: p.env["start_"], what, "start_ afterwards")
+    for e in (widx, wsize, wstart):
+        if re.search(r"\bcapacity\b", e):
+            raise TranslateError("%s: index / size_ / start_ depend on capacity_" % what)
+    out.append(_defn("pushGrow", P4, "Bool", _which(paths, grown, what), "push_back: a new chunk is appended iff"))
+    out.append(_defn("pushGrownCapacity", P4, nat, _tree(grown, lambda p: p.env["capacity_"]), "push_back: capacity_ after appending a chunk"))
+    out.append(_defn("pushWriteIndex", P4, nat, widx, "push_back: absolute index the entry is written to"))
+    out.append(_defn("pushSize", P4, nat, wsize, "push_back: size_ afterwards"))
+    out.append(_defn("pushStart", P4, nat, wstart, "push_back: start_ afterwards"))
 
     # ---- purge ----
     bodies = _find_bodies(src, _T + r"void\s+" + _AL + r"purge\s*\(\s*\)", "ArrayList::purge", 1)
-    body = bodies[0][1]
-    mm = re.fullmatch(r"(.*?)\bif\s*\((.*?)\)\s*\{(.*)\}\s*", body, flags=re.S)
-    if not mm:
-        raise TranslateError("ArrayList::purge: expected `...; if(cond) { ... }`")
-    sy = Sym("ArrayList::purge", mem)
-    for s in _stmts(mm.group(1)):
-        if not sy.stmt(s):
-            raise TranslateError("ArrayList::purge: statement outside the grammar: %r" % s)
-    if sy.assigned:
-        raise TranslateError("ArrayList::purge: a member changes outside the guarded block")
-    cond = sy.expr(mm.group(2))
-    cfrom = cto = rsz = None
-    for s in _stmts(mm.group(3)):
-        c = re.fullmatch(r"std::(?:copy|move)\s*\(\s*chunks_\s*\.\s*begin\s*\(\s*\)\s*\+(.+?),\s*chunks_\s*\.\s*begin\s*\(\s*\)\s*\+(.+),\s*chunks_\s*\.\s*begin\s*\(\s*\)\s*\)", s, flags=re.S)
-        r = re.fullmatch(r"chunks_\s*\.\s*resize\s*\((.+)\)", s, flags=re.S)
-        if c:
-            if cfrom is not None or rsz is not None:
-                raise TranslateError("ArrayList::purge: copy must come once, before resize")
-            cfrom, cto = sy.expr(c.group(1)), sy.expr(c.group(2))
-        elif r:
-            if rsz is not None or cfrom is None:
-                raise TranslateError("ArrayList::purge: resize must come once, after the copy")
-            rsz = sy.expr(r.group(1))
-        elif not sy.stmt(s):
-            raise TranslateError("ArrayList::purge: statement outside the grammar: %r" % s)
-    if cfrom is None or rsz is None:
-        raise TranslateError("ArrayList::purge: copy/resize of chunks_ not found")
-    out.append(_defn("purgeCond", P4, "Bool", cond, "purge: something is done iff"))
-    out.append(_defn("purgeCopyFrom", P4, nat, cfrom, "purge: first chunk index copied to the front"))
-    out.append(_defn("purgeCopyTo", P4, nat, cto, "purge: end of the copied chunk range"))
-    out.append(_defn("purgeResize", P4, nat, rsz, "purge: number of chunk pointers kept"))
-    out.append(_defn("purgeStart", P4, nat, sy.env["start_"], "purge: start_ afterwards"))
-    out.append(_defn("purgeCapacity", P4, nat, sy.env["capacity_"], "purge: capacity_ afterwards"))
-    out.append(_defn("purgeSize", P4, nat, sy.env["size_"], "purge: size_ afterwards"))
+    what = "ArrayList::purge"
+    paths = _run(what, bodies[0][1], dict(mem), readonly=ro)
+    work, idle = [], []
+    for p in paths:
+        if p.threw:
+            raise TranslateError("%s: throws" % what)
+        if not p.effects:
+            idle.append(p)
+        elif len(p.effects) == 2 and p.effects[0][0] == "copy" and p.effects[0][3] == "0" and p.effects[1][0] == "resize":
+            work.append(p)
+        else:
+            raise TranslateError("%s: expected copy of a chunk range to the front, then resize; got %r" % (what, p.effects))
+    _unchanged(idle, mem, what + " (nothing to do)", memkeys)
+    out.append(_defn("purgeCond", P4, "Bool", _which(paths, work, what), "purge: something is done iff"))
+    out.append(_defn("purgeCopyFrom", P4, nat, _tree(work, lambda p: p.effects[0][1]), "purge: first chunk index copied to the front"))
+    out.append(_defn("purgeCopyTo", P4, nat, _tree(work, lambda p: p.effects[0][2]), "purge: end of the copied chunk range"))
+    out.append(_defn("purgeResize", P4, nat, _tree(work, lambda p: p.effects[1][1]), "purge: number of chunk pointers kept"))
+    out.append(_defn("purgeStart", P4, nat, _tree(work, lambda p: p.env["start_"]), "purge: start_ afterwards"))
+    out.append(_defn("purgeCapacity", P4, nat, _tree(work, lambda p: p.env["capacity_"]), "purge: capacity_ afterwards"))
+    out.append(_defn("purgeSize", P4, nat, _tree(work, lambda p: p.env["size_"]), "purge: size_ afterwards"))
 
     # ---- eraseToHere ----
     bodies = _find_bodies(src, _T + r"void\s+" + _IT + r"eraseToHere\s*\(\s*\)", "eraseToHere", 1)
-    body = bodies[0][1]
-    mm = re.fullmatch(r"(.*?)\bfor\s*\(\s*(?:std::)?size_t\s+(\w+)\s*=\s*0\s*;\s*(\w+)\s*<\s*([^;]+);\s*(?:\+\+\s*(\w+)|(\w+)\s*\+\+)\s*\)\s*\{(.*?)\}(.*)", body, flags=re.S)
-    if not mm:
-        raise TranslateError("eraseToHere: expected `...; for(size_t c=0; c<bound; c++) { ... } ...`")
-    v = mm.group(2)
-    if mm.group(3) != v or (mm.group(5) or mm.group(6)) != v:
-        raise TranslateError("eraseToHere: loop header outside the grammar")
-    sy = Sym("eraseToHere", dict(mem, position_="pos"))
-    for s in _stmts(mm.group(1)):
-        if not sy.stmt(s):
-            raise TranslateError("eraseToHere: statement outside the grammar: %r" % s)
-    bound = sy.expr(mm.group(4))
-    lb = _stmts(mm.group(7))
-    lm = None
-    if len(lb) == 2:
-        a = re.fullmatch(r"--\s*(\w+)", lb[0])
-        b = re.fullmatch(r"list_\s*->\s*chunks_\s*\[\s*(\w+)\s*\]\s*\.\s*reset\s*\(\s*\)", lb[1])
-        if a and b and a.group(1) == b.group(1):
-            lm = a.group(1)
-    elif len(lb) == 1:
-        b = re.fullmatch(r"list_\s*->\s*chunks_\s*\[\s*--\s*(\w+)\s*\]\s*\.\s*reset\s*\(\s*\)", lb[0])
-        if b:
-            lm = b.group(1)
-    if lm is None or lm == v or lm in mem or lm == "position_":
-        raise TranslateError("eraseToHere: loop body outside the grammar: %r" % lb)
-    first = sy.lookup(lm)
-    for s in _stmts(mm.group(8)):
-        if not sy.stmt(s):
-            raise TranslateError("eraseToHere: statement outside the grammar: %r" % s)
+    what = "eraseToHere"
+    env = dict(mem, position_="pos")
+    paths = _run(what, bodies[0][1], env, readonly=ro)
+    eff = _same(paths, lambda p: p.effects, what, "the effect on chunks_")
+    if len(eff) != 1 or eff[0][0] != "resetdown" or any(p.threw for p in paths):
+        raise TranslateError("%s: expected one loop resetting chunk pointers downwards; got %r" % (what, eff))
     P5 = P4 + [("pos", nat)]
-    out.append(_defn("erasePos", P5, nat, sy.env["position_"], "eraseToHere: position_ afterwards"))
-    out.append(_defn("eraseSize", P5, nat, sy.env["size_"], "eraseToHere: size_ afterwards"))
-    out.append(_defn("eraseStart", P5, nat, sy.env["start_"], "eraseToHere: start_ afterwards"))
-    out.append(_defn("eraseCapacity", P5, nat, sy.env["capacity_"], "eraseToHere: capacity_ afterwards"))
-    out.append(_defn("eraseLoopFirst", P5, nat, first, "eraseToHere: the chunk index the freeing loop counts down from (exclusive)"))
-    out.append(_defn("eraseLoopCount", P5, nat, bound, "eraseToHere: number of chunk pointers reset"))
+    out.append(_defn("erasePos", P5, nat, _tree(paths, lambda p: p.env["position_"]), "eraseToHere: position_ afterwards"))
+    out.append(_defn("eraseSize", P5, nat, _tree(paths, lambda p: p.env["size_"]), "eraseToHere: size_ afterwards"))
+    out.append(_defn("eraseStart", P5, nat, _tree(paths, lambda p: p.env["start_"]), "eraseToHere: start_ afterwards"))
+    out.append(_defn("eraseCapacity", P5, nat, _tree(paths, lambda p: p.env["capacity_"]), "eraseToHere: capacity_ afterwards"))
+    out.append(_defn("eraseLoopFirst", P5, nat, eff[0][1], "eraseToHere: the chunk index the freeing loop counts down from (exclusive)"))
+    out.append(_defn("eraseLoopCount", P5, nat, eff[0][2], "eraseToHere: number of chunk pointers reset"))
 
 
 def _bitsetvector(repo, out):
@@ -779,31 +1537,37 @@ def _facade(repo, out):
             raise TranslateError("RandomAccessIteratorFacade::%s(n) outside the grammar: %r" % (what, st))
         out.append(_defn(lean, [("n", "Int")], "Int", val, "it %s n: the argument copy.advance() receives" % what[-1]))
 
-    # the free operators: `if(is_convertible<T2,T1>) return E1; else return E2;` over lhs.distanceTo(rhs) / rhs.distanceTo(lhs)
+    # the free operators: what each returns when is_convertible<T2,T1> holds / does not hold, over lhs.distanceTo(rhs),
+    # rhs.distanceTo(lhs) / equals (the derived objects may be named once, the branch may be `?:`, `if constexpr`, ...)
     k = src.find("class RandomAccessIteratorFacade")
     free = src[k:]
-    LR = r"static_cast\s*<\s*const\s+T1\s*&\s*>\s*\(\s*lhs\s*\)\s*\.\s*%s\s*\(\s*static_cast\s*<\s*const\s+T2\s*&\s*>\s*\(\s*rhs\s*\)\s*\)"
-    RL = r"static_cast\s*<\s*const\s+T2\s*&\s*>\s*\(\s*rhs\s*\)\s*\.\s*%s\s*\(\s*static_cast\s*<\s*const\s+T1\s*&\s*>\s*\(\s*lhs\s*\)\s*\)"
     for op, lean, prim, ty in (("==", "facEq", "equals", "Bool"), ("!=", "facNe", "equals", "Bool"), ("<", "facLt", "distanceTo", "Bool"),
                                ("<=", "facLe", "distanceTo", "Bool"), (">", "facGt", "distanceTo", "Bool"), (">=", "facGe", "distanceTo", "Bool"),
                                ("-", "facDiff", "distanceTo", "Int")):
         m = re.search(r"operator\s*" + re.escape(op) + r"\s*\(\s*const\s+RandomAccessIteratorFacade\s*<\s*T1\s*,\s*V1\s*,\s*R1\s*,\s*D\s*>\s*&\s*lhs\s*,\s*const\s+RandomAccessIteratorFacade\s*<\s*T2\s*,\s*V2\s*,\s*R2\s*,\s*D\s*>\s*&\s*rhs\s*\)\s*(?=\{)", free)
         if not m:
             raise TranslateError("RandomAccessIteratorFacade free operator%s not found" % op)
-        body = _body_after(free, m.end(), "operator" + op)
-        b = re.fullmatch(r"\s*if\s*(?:constexpr\s*)?\(\s*std::is_convertible(?:_v)?\s*<\s*T2\s*,\s*T1\s*>\s*(?:::value)?\s*\)\s*return\s+([^;]+);\s*else\s+return\s+([^;]+);\s*", body, flags=re.S)
-        if not b:
-            raise TranslateError("free operator%s outside the grammar" % op)
-        for e, suf in ((b.group(1), "1"), (b.group(2), "2")):
-            e = re.sub(LR % prim, "pLR", e)
-            e = re.sub(RL % prim, "pRL", e)
-            if prim == "equals":
-                env = {"pLR": "(eq l r)", "pRL": "(eq r l)"}
-                params = [("eq", "Nat → Nat → Bool"), ("l", "Nat"), ("r", "Nat")]
-            else:
-                env = {"pLR": "(dist l r)", "pRL": "(dist r l)"}
-                params = [("dist", "Int → Int → Int"), ("l", "Int"), ("r", "Int")]
-            out.append(_defn(lean + suf, params, ty, Sym("operator" + op, env, "Int").expr(e),
+        what = "free operator" + op
+        body = _body_after(free, m.end(), what)
+        env = {"lhs": ("obj", "l"), "rhs": ("obj", "r"), "std::is_convertible<T2,T1>::value": "conv", "std::is_convertible_v<T2,T1>": "conv",
+               "std::is_convertible<T2,T1>{}": "conv"}
+        if prim == "equals":
+            prims = {"equals": "eq"}
+            params = [("eq", "Nat → Nat → Bool"), ("l", "Nat"), ("r", "Nat")]
+        else:
+            prims = {"distanceTo": "dist"}
+            params = [("dist", "Int → Int → Int"), ("l", "Int"), ("r", "Int")]
+        paths = _run(what, body, env, ty="Int", prims=prims)
+        for pol, suf in ((True, "1"), (False, "2")):
+            sel = [p for p in paths if all(not (c == "conv" and q != pol) for c, q in p.conds)]
+            if len(sel) != 1 or any(c != "conv" for c, q in sel[0].conds):
+                raise TranslateError("%s: branches on something other than is_convertible<T2,T1>" % what)
+            if sel[0].effects or sel[0].threw:
+                raise TranslateError("%s: effect outside the grammar" % what)
+            v = _ret(sel, what)
+            if re.search(r"\bconv\b", v):
+                raise TranslateError("%s: the result depends on is_convertible in a way outside the grammar" % what)
+            out.append(_defn(lean + suf, params, ty, v,
                              "lhs %s rhs, %s branch (`l`, `r` = the positions of lhs, rhs)" % (op, "convertible" if suf == "1" else "other")))
 
 
